@@ -6,5 +6,6 @@ CONSTANTS
   ASIS = FALSE
   ALPHA = "full"
   MAXLEN = 10
+  GUARD = TRUE
 INVARIANT GenPrint
 CHECK_DEADLOCK FALSE
